@@ -21,3 +21,25 @@ Fixpoint run_obs12 (c : l2case) (cf : cfg) (s : l2state) (ops : list msg) : list
   end.
 
 Definition run_c12l2case (c : l2case) : list ov := run_obs12 c (cfg_of c) (init_of c) (c_ops c).
+
+(* ---- histories with block ends (executor-change plans): the events of Model/C12Spec ---- *)
+Require Import Model.C12Spec.
+
+Definition ev_obs (c : l2case) (cf : cfg) (s : l2state) (ev : l2ev) : l2state * ov :=
+  match ev with
+  | EMsg m => let '(s', r) := step cf s m in (s', OL [l2_obs c s s' r; c12_extra s'])
+  | EEnd pl => match end_block cf s pl with
+               | Some (s', _) => (s', OL [OS "END-OK"; c12_extra s'])
+               | None => (s, OL [OS "END-ERR"; c12_extra s])
+               end
+  end.
+
+Fixpoint run_evs (c : l2case) (cf : cfg) (s : l2state) (evs : list l2ev) : list ov :=
+  match evs with
+  | [] => []
+  | ev :: evs' => let '(s', o) := ev_obs c cf s ev in o :: run_evs c cf s' evs'
+  end.
+
+Definition run_c12evcase (x : l2case * list l2ev) : list ov :=
+  run_evs x.1 (cfg_of x.1) (init_of x.1) x.2.
+
